@@ -31,7 +31,7 @@ func init() {
 		Real:       distReal,
 		Stub:       distStub,
 		Assumes:    []string{"no governance traffic and no slashing in this profile (x/gov burns deposits of proposals that miss the quorum; that is SDK behaviour outside the statement)", "amounts <= 1e30"},
-		FaultKinds: []string{"F-clock", "F-order", "F-malformed", "F-bank-nat (odd seeds)"},
+		FaultKinds: []string{"F-clock", "F-order", "F-malformed", "F-bank-nat (odd seeds)", "F-crash (every fifth run)", "F-simulate + F-rollback (every fifth run: a quarter of the transactions are only handed to the Simulate service, or are a governance execution [parameter update, failing message] that x/gov drops as a whole; nothing of either may stick)"},
 	})
 }
 
@@ -41,7 +41,7 @@ type c01Extra struct {
 
 func c01RunSeed(seed uint64, tier string) *Outcome {
 	nat := seed%2 == 1
-	tr, src, _, err := buildEverything(seed, "C01", everythingOpts{MaxAmtExp: 30, Sig: true, NatFaults: nat, Adversarial: true, Blocks: [2]int{20, 60}})
+	tr, src, _, err := buildEverything(seed, "C01", everythingOpts{MaxAmtExp: 30, Sig: true, NatFaults: nat, Adversarial: true, Crash: seed%5 == 2, Sim: seed%5 == 3, Blocks: [2]int{20, 60}})
 	if err != nil {
 		return &Outcome{InfraErr: err}
 	}
@@ -73,7 +73,7 @@ func (m *mintBurnMonitor) Init(r *kernel.Run) {
 	m.mainAddr = kernel.DistMainAddr().String()
 	m.supply0 = r.Chain.Supply()
 	m.cumMinted = sdk.ZeroInt()
-	p := r.Chain.App.CfeminterKeeper.GetParams(r.Chain.Ctx())
+	p := r.Chain.MinterParams()
 	m.mintDenom = p.MintDenom
 	if mm, err := MintModelFrom(p); err == nil {
 		m.model = mm
@@ -117,7 +117,7 @@ func (m *mintBurnMonitor) AfterBegin(r *kernel.Run, resp abci.ResponseBeginBlock
 	}
 	// (c) cumulative minted follows the schedule (as long as the schedule is the one the run started with)
 	if m.model != nil {
-		cur := r.Chain.App.CfeminterKeeper.GetParams(r.Chain.Ctx())
+		cur := r.Chain.MinterParams()
 		if !bytesEqual(kernel.Enc().Marshaler.MustMarshal(&cur), m.params0) {
 			m.model = nil
 			r.Stats.Inc("probe.minter_params_changed_schedule_check_off")
